@@ -56,8 +56,11 @@ def gen_schema(rng, keyfiles, depth=3, width=(2, 4)):
         elif depth > 0 and r < 0.38:
             fs.append([k, {"s": "ctype", "schema": gen_schema(rng, keyfiles, depth - 1, (1, 3)), "keyfile": rng.choice([None, None] + keyfiles[:2])}])
         elif depth > 0 and r < 0.50:
-            fs.append([k, {"s": "cfglist", "schema": gen_schema(rng, keyfiles, 0, (1, 2)), "is_type": rng.random() < 0.4, "required": False,
+            is_type = rng.random() < 0.5
+            fs.append([k, {"s": "cfglist", "schema": gen_schema(rng, keyfiles, 0, (1, 2)), "is_type": is_type, "required": False,
                            "default": {"kind": "callable", "v": []}}])
+            if is_type and rng.random() < 0.5:
+                fs[-1][1]["keyfile"] = rng.choice(keyfiles[:2])        # the item type names its own key file
         elif r < 0.60:
             fs.append([k, {"s": "leaf", "field": {"k": "list", "required": False, "item": {"k": "secure", "required": False, "method": rng.choice(["aes", "xor"])}},
                            "sensitive": False, "flag": False, "include": False}])
@@ -121,6 +124,15 @@ def gen_ops(rng, sk, keyfiles, default):
     ops = []
     if rng.random() < 0.7:
         ops.append({"op": "setkey", "path": [], "file": rng.choice(keyfiles)})
+    if nodes and len(keyfiles) >= 2 and rng.random() < 0.3:
+        # a nested configuration is given, by name, the very file it inherits at that moment; then the ancestor moves on to another one
+        k1, k2 = rng.sample(keyfiles, 2)
+        path = list(rng.choice(nodes)[0])
+        ops += [{"op": "setkey", "path": [], "file": k1}, {"op": "setkey", "path": path, "file": k1}, {"op": "setkey", "path": [], "file": k2}]
+        if leaves:
+            for p_, sf_ in rng.sample(leaves, min(2, len(leaves))):
+                ops.append({"op": "setitem", "key": p_, "value": {"a": "val", "py": gen_value(rng, sf_)}, "via": "item"})
+        ops.append({"op": "to_tree_keyed", "candidates": cands, "default": default})
     for _ in range(rng.randint(4, 12)):
         r = rng.random()
         if r < 0.22:
@@ -152,6 +164,8 @@ def expected_keys(sk, ops_done, default):
     for path, sf in node_paths(sk):
         if sf["s"] == "ctype" and sf.get("keyfile"):
             own[path] = sf["keyfile"]
+    for path, kf in typed_lists(sk):
+        own[path] = kf
     for op, out in ops_done:
         if op["op"] == "setkey" and out == "ok":
             own[tuple(op["path"])] = op["file"]
@@ -162,6 +176,17 @@ def expected_keys(sk, ops_done, default):
                 return own[tuple(path[:i])]
         return default
     return own, key_of
+
+
+def typed_lists(sk, prefix=()):
+    """(pseudo path of the items, key file) for every list of configurations whose item type names a key file"""
+    out = []
+    for k, sf in sk["fields"]:
+        if sf["s"] == "cfglist" and sf.get("keyfile"):
+            out.append((prefix + (k + "[]",), sf["keyfile"]))
+        elif sf["s"] in ("sub", "ctype"):
+            out += typed_lists(sf["schema"], prefix + (k,))
+    return out
 
 
 def marks(sk, tree, prefix=()):
@@ -180,7 +205,7 @@ def marks(sk, tree, prefix=()):
         elif sf["s"] == "cfglist" and isinstance(v, list):
             for i, it in enumerate(v):
                 if isinstance(it, dict):
-                    out += [(p, "%s[%d].%s" % (k, i, pos), m) for p, pos, m in marks(sf["schema"], it, prefix)]
+                    out += [(p, "%s[%d].%s" % (k, i, pos), m) for p, pos, m in marks(sf["schema"], it, prefix + ((k + "[]",) if sf.get("keyfile") else ()))]
     return out
 
 
@@ -377,7 +402,7 @@ def one_case(ctx, res, i, tmp, home, reqs, pend, sessions):
     lost = replaced_paths(done)
     held = plain_dump(cfg)
     plains = [p for p in all_plaintexts(held, []) if p]
-    assign = [[list(p), f] for p, f in sorted(own.items()) if f or (p and dict(node_paths(sk)).get(p, {}).get("keyfile"))]
+    assign = [[list(p), f] for p, f in sorted(own.items()) if (f or (p and dict(node_paths(sk)).get(p, {}).get("keyfile"))) and not any(x.endswith("[]") for x in p)]
     f19_expected = any(p and dict(node_paths(sk)).get(tuple(p), {}).get("s") == "sub" for p, f in assign) or \
         any(p and dict(node_paths(sk)).get(tuple(p), {}).get("keyfile") != f for p, f in assign if p)
     if not any(a in lost for a in own):
@@ -427,6 +452,9 @@ def one_case(ctx, res, i, tmp, home, reqs, pend, sessions):
     if default not in used_everywhere and os.path.exists(default) and not f19_expected and not any(a in lost for a in own):
         res.violate("C03:other-key-file-created", "the default key file was created although no configuration holding a secret falls back to it",
                     dict(case, default=default))
+    if typed_lists(sk):
+        res.unmodelled += 1            # the model's lists of configurations carry no key file of their own: direct oracles only
+        return
     vals = H.op_values(ops) + H.schema_values(sk)
     reqs.append({"cmd": "cfg.run", "schema": C.wire_schema(sk, tmp),
                  "world": {"environ": [], "env": H.schema_env(sk, vals, tmp, key=bytes(range(32)), iv=P.tape(16), salts=P.SALTS)},
